@@ -497,7 +497,8 @@ pub fn run(tier: &str) -> i32 {
         let thorough = tier == "thorough";
         let fams: Vec<(String, Vec<Program>, u32)> = if thorough {
             vec![
-                ("2 nodes x 1..=3 lease operations, object-store, jumps {+150 s, +301 s} <= 2".into(), generated_programs(3, "object-store", &[150, 301]), 2),
+                ("2 nodes x 1..=2 lease operations, object-store, jumps {+150 s, +301 s} <= 2".into(), generated_programs(2, "object-store", &[150, 301]), 2),
+                ("2 nodes x 1..=3 lease operations, object-store, one jump of +301 s".into(), generated_programs(3, "object-store", &[301]), 1),
                 ("2 nodes x 1..=3 lease operations, in-memory, jumps {+150 s, +301 s} <= 2".into(), generated_programs(3, "in-memory", &[150, 301]), 2),
             ]
         } else {
@@ -511,13 +512,17 @@ pub fn run(tier: &str) -> i32 {
             let t0 = std::time::Instant::now();
             let bounds = Cost { preempt: 1000, clock, ..Cost::ZERO };
             let os = progs.first().map(|p| p.backend == "object-store").unwrap_or(true);
-            let stats = explore_many(progs.iter().map(|p| factory(p.clone())).collect(), &|_| ExploreConfig {
-                bounds,
-                use_cache: os,
-                wall_cap: Duration::from_secs(1500),
-                selftest: 1,
-                ..Default::default()
-            });
+            // overall budget per family; programs not started by then are reported as not covered
+            let deadline = std::time::Instant::now() + Duration::from_secs(if thorough { 1500 } else { 50 });
+            let stats = explore_many_until(
+                progs.iter().map(|p| factory(p.clone())).collect(),
+                &|_| ExploreConfig { bounds, use_cache: os, wall_cap: Duration::from_secs(600), selftest: 1, ..Default::default() },
+                Some(deadline),
+            );
+            let skipped = stats.iter().filter(|s| s.capped && s.executions == 0).count();
+            if skipped > 0 {
+                println!("  C08 generated: {name}: {skipped} of {} programs were not started within the time budget (reported as not exhaustive)", progs.len());
+            }
             let (mut ex, mut stt, mut tr, mut outc) = (0u64, 0u64, 0u64, 0u64);
             for (p, st) in progs.iter().zip(stats.iter()) {
                 ex += st.executions;
